@@ -675,6 +675,13 @@ func (trans *BinOpTransform) getTagRange(tagLoc int, chunk Chunk) (start int, en
 	return start, end
 }
 
+// primaryGroupEnd returns the row index just past the primary tag group that pLoc points into. Rows behind it
+// belong to the next series of the chunk and must never be paired with the current secondary group.
+func (trans *BinOpTransform) primaryGroupEnd(pLoc *Loc, pChunk Chunk) int {
+	_, end := trans.getTagRange(pLoc.GroupLoc, pChunk)
+	return end
+}
+
 func (trans *BinOpTransform) tryAddOutputTags(preOutSize int, tagKeys, tagValues []string) {
 	if trans.outputChunk.Len() > preOutSize {
 		trans.addOutPutTags(preOutSize, tagKeys, tagValues)
@@ -698,7 +705,7 @@ func (trans *BinOpTransform) computeMatchResult(primaryGroups *GroupLocs, second
 		pTime = pChunk.Time()[pLoc.RowLoc]
 		sTime = secondaryChunk.Time()[start]
 		if pTime < sTime {
-			primaryGroups.add(pChunk.Len())
+			primaryGroups.add(trans.primaryGroupEnd(pLoc, pChunk))
 			continue
 		} else if sTime < pTime {
 			start++
@@ -716,12 +723,12 @@ func (trans *BinOpTransform) computeMatchResult(primaryGroups *GroupLocs, second
 				rVal = 0
 			}
 		} else if !keep {
-			primaryGroups.add(pChunk.Len())
+			primaryGroups.add(trans.primaryGroupEnd(pLoc, pChunk))
 			start++
 			continue
 		}
 		trans.addOutputVal(pTime, rVal)
-		primaryGroups.add(pChunk.Len())
+		primaryGroups.add(trans.primaryGroupEnd(pLoc, pChunk))
 		start++
 	}
 	trans.tryAddOutputTags(preOutSize, trans.resultTagKeys, trans.resultTagValues)
@@ -801,12 +808,12 @@ func (trans *BinOpTransform) computeMatchResultLand(primaryGroups *GroupLocs, se
 		pTime = pChunk.Time()[pLoc.RowLoc]
 		sTime = secondaryChunk.Time()[start]
 		if pTime < sTime {
-			primaryGroups.add(pChunk.Len())
+			primaryGroups.add(trans.primaryGroupEnd(pLoc, pChunk))
 		} else if sTime < pTime {
 			start++
 		} else {
 			trans.addOutputVal(sTime, secondaryChunk.Columns()[0].FloatValues()[start])
-			primaryGroups.add(pChunk.Len())
+			primaryGroups.add(trans.primaryGroupEnd(pLoc, pChunk))
 			start++
 		}
 	}
@@ -834,12 +841,12 @@ func (trans *BinOpTransform) computeMatchResultLunless(primaryGroups *GroupLocs,
 		pTime = pChunk.Time()[pLoc.RowLoc]
 		sTime = secondaryChunk.Time()[start]
 		if pTime < sTime {
-			primaryGroups.add(pChunk.Len())
+			primaryGroups.add(trans.primaryGroupEnd(pLoc, pChunk))
 		} else if sTime < pTime {
 			trans.addOutputVal(sTime, secondaryChunk.Columns()[0].FloatValues()[start])
 			start++
 		} else {
-			primaryGroups.add(pChunk.Len())
+			primaryGroups.add(trans.primaryGroupEnd(pLoc, pChunk))
 			start++
 		}
 	}
